@@ -45,13 +45,13 @@ def plan(tier, seed):
 def random_fspec(rng):
     kind = rng.choice(T.FILTERS)
     if kind == 'OverlapFilter':
-        return {'kind': kind, 'overlap_size': rng.choice([1, 1, 2, 3]),
+        return {'kind': kind, 'overlap_size': rng.choice([1, 1, 2, 3, 1.5, 0.5, 2.0]),
                 'comp_op': rng.choice(['>=', '>', '=']), 'allow_missing': rng.random() < 0.4}
     measure = rng.choice(['JACCARD', 'COSINE', 'DICE', 'OVERLAP', 'EDIT_DISTANCE'])
     if measure == 'OVERLAP':
-        t = rng.choice([1, 2, 3])
+        t = rng.choice([1, 2, 3, 1.0, 1.5, 2.5])
     elif measure == 'EDIT_DISTANCE':
-        t = rng.choice([0, 1, 2, 3])
+        t = rng.choice([0, 1, 2, 3, 1.0, 0.5, 2.5])
     else:
         t = gen.random_threshold(rng)
     return {'kind': kind, 'measure': measure, 'threshold': t, 'allow_empty': rng.random() < 0.6,
@@ -133,7 +133,9 @@ def run_case(case, rec, ssj=None):
     if g == 'ovx':
         tok = gen.random_tokenizer(rng, allow_bag=False)
         L, R, tok = gen.random_table_pair(rng, tok=tok, max_rows=9, missing=0.1)
-        size = rng.choice([1, 1, 2, 3, 4, 5])
+        # (validation accepts any positive number: fractional sizes are valid and decide like the
+        #  comparison against the integer overlap says)
+        size = rng.choice([1, 1, 2, 3, 4, 5, 1.5, 2.5, 0.5, 3.0, 2.000001])
         op = rng.choice(['>=', '>', '='])
         return overlap_exact(ssj, rec, case, L, R, tok, size, op, 'lid', 'rid', 'lattr', 'rattr',
                              n_jobs=rng.choice([1, 1, 2, 3]), allow_missing=rng.random() < 0.3,
